@@ -32,6 +32,11 @@ pub struct HookState {
     /// Observed nesting: (held class, held exclusively, acquired class, acquired exclusively).
     pub lock_edges: std::collections::BTreeSet<(&'static str, bool, &'static str, bool)>,
     pub lock_acquisitions: u64,
+    /// Start of the run (tokio's paused clock) and the latest end of a long stall handed out: the
+    /// barrier must not call the system quiescent while a request task is sitting in one.
+    pub t0: Option<tokio::time::Instant>,
+    pub long_stall_until: Option<tokio::time::Instant>,
+    pub long_stalls: u64,
 }
 
 pub struct Hooks {
@@ -52,6 +57,8 @@ impl HookState {
                 site_mask: 0,
                 push_interval_ms: 0,
                 pre_advance_us: 0,
+                long_stall_permille: 0,
+                long_stall_max_us: 0,
             },
             enabled: false,
             visits: BTreeMap::new(),
@@ -64,6 +71,9 @@ impl HookState {
             held: Vec::new(),
             lock_edges: std::collections::BTreeSet::new(),
             lock_acquisitions: 0,
+            t0: None,
+            long_stall_until: None,
+            long_stalls: 0,
         }
     }
 }
@@ -96,6 +106,18 @@ impl SimHooks for HooksRef {
             let us = 1 + (h >> 36) % st.knobs.stall_max_us.max(1);
             d.stall = Some(Duration::from_micros(us));
             st.stalls += 1;
+        }
+        // a slow handler: seconds, only on the request path of handlers
+        let handler_site = site.starts_with("api.") || site.starts_with("subscription.") || site.starts_with("topic.") || site.starts_with("submgr.");
+        if handler_site && st.knobs.long_stall_permille > 0 && ((h >> 44) % 1000) < st.knobs.long_stall_permille as u64 {
+            let us = 200_000 + (h >> 8) % st.knobs.long_stall_max_us.max(1);
+            let dur = Duration::from_micros(us);
+            d.stall = Some(dur);
+            st.long_stalls += 1;
+            let until = tokio::time::Instant::now() + dur;
+            if st.long_stall_until.map(|u| until > u).unwrap_or(true) {
+                st.long_stall_until = Some(until);
+            }
         }
         if d.yields > 0 || d.stall.is_some() {
             st.sched_fp = mix3(st.sched_fp, site_hash ^ visit, d.yields as u64 + 1000 * d.stall.map(|s| s.as_micros() as u64).unwrap_or(0));
@@ -163,6 +185,15 @@ pub fn set_enabled(on: bool) {
 
 pub fn activity() -> u64 {
     HOOKS.st.lock().unwrap().points
+}
+
+/// True while some request task is sitting in a long stall.
+pub fn long_stall_pending() -> bool {
+    HOOKS.st.lock().unwrap().long_stall_until.map(|u| tokio::time::Instant::now() < u).unwrap_or(false)
+}
+
+pub fn long_stalls() -> u64 {
+    HOOKS.st.lock().unwrap().long_stalls
 }
 
 // ---------------------------------------------------------------------------------------------
